@@ -149,6 +149,19 @@ def check(case, ctx):
             diags.append({"kind": "script-does-not-reproduce-second", "edit": type(e).__name__, **_first_diff(_fold(B), _fold(vb))})
         kinds = collections.Counter(type(x).__name__ for x in monitors.walk_script(e))
         nontrivial = any(k != "Match" for k in kinds)
+        # "kept" means unchanged: a Match that costs nothing marks nothing, so discarding what is marked removed leaves its
+        # first-document value standing where the second document has another one
+        for x in monitors.walk_script(e):
+            if type(x) is ge.Match and x.to_node is not None and type(x.from_node).__name__ != "PLISTNode":
+                # (the plist wrapper's collection lists a zero-cost Match of the wrapper with itself next to the edit of its root)
+                b_ = x.bounds()
+                if b_.upper_bound == 0:
+                    if ctx is not None:
+                        ctx.count("zero_cost_matches_checked")
+                    if _fold(val(x.from_node)) != _fold(val(x.to_node)):
+                        diags.append({"kind": "changed-element-reported-as-kept", "from": repr(val(x.from_node))[:120],
+                                      "to": repr(val(x.to_node))[:120]})
+                        break
         if ctx is not None:
             ctx.count("m1_judged")
             if monitors.sub_edits(e) is not None:
